@@ -256,6 +256,16 @@ def replay_validators(index, ob, seed, saved=None):
         ("RTFPage", dict(orientation="diagonal")), ("RTFPage", dict(page_title="middle")), ("RTFPage", dict(margin=[1, 1, 1])),
         ("RTFPage", dict(col_width=0)), ("RTFTitle", dict(text="t", text_font=99)), ("RTFFootnote", dict(text="t", border_top="zig")),
         ("RTFFigure", dict(figures=None, fig_align="top")), ("RTFFigure", dict(figures=None, fig_pos="middle")),
+        # near-legal spellings (case and blank variants of legal keywords are unknown values too), mixed with legal ones at every depth
+        ("RTFBody", dict(text_color=["red", "Red"])), ("RTFFootnote", dict(text="t", text_background_color=["red", "BLUE"])),
+        ("RTFBody", dict(border_color_top=[["red", "blue"], ["black", "DarkGreen"]])), ("RTFColumnHeader", dict(text=["a"], text_color=[["black", "Red"]])),
+        ("RTFTitle", dict(text="t", text_color=" red")), ("RTFSource", dict(text="t", text_color="red ")),
+        ("RTFBody", dict(border_left=["single", "Single"])), ("RTFBody", dict(border_top=[["single"], ["DOUBLE"]])),
+        ("RTFBody", dict(text_justification=["l", "L"])), ("RTFBody", dict(cell_vertical_justification=["top", "Top"])),
+        ("RTFPage", dict(orientation="Portrait")), ("RTFPage", dict(page_title="First")), ("RTFPage", dict(page_footnote="ALL")),
+        ("RTFPage", dict(border_first="Single")), ("RTFBody", dict(text_format=["b", "B"])), ("RTFBody", dict(pageby_row="Column")),
+        ("RTFBody", dict(text_justification=[["l", "c "]])), ("RTFFigure", dict(figures=None, fig_align="Center")),
+        ("RTFFigure", dict(figures=None, fig_pos="Above")), ("RTFBody", dict(border_color_bottom=["red", "grey 50"])),
     ]
     for cls, kw in probes:
         try:
@@ -589,6 +599,19 @@ def replay_grouping(index, ob, seed, saved=None):
                 got = [out[nm].to_list() for nm in names]
                 if got != expected(cols) or out["v"].to_list() != list(range(n)):
                     return _r(True, input={"columns": dict(zip(names, cols))}, observed=got, expected=expected(cols))
+                # restore_page_context: at every page start each group_by column shows the original value again (null keys included),
+                # every other cell and every other column stays as suppressed -- all subsets of page starts
+                if n <= 3 or h is None:
+                    for mask in range(1, 2 ** n):
+                        starts = [i for i in range(n) if mask >> i & 1]
+                        try:
+                            back = gs.restore_page_context(out, df, names, starts)
+                        except Exception as e:
+                            return _r(True, input={"columns": dict(zip(names, cols)), "page_starts": starts}, observed=f"{type(e).__name__}: {e}")
+                        want = [[cols[l][i] if i in starts else got[l][i] for i in range(n)] for l in range(len(cols))]
+                        gotb = [back[nm].to_list() for nm in names]
+                        if gotb != want or back["v"].to_list() != list(range(n)) or back.columns != out.columns:
+                            return _r(True, input={"columns": dict(zip(names, cols)), "page_starts": starts}, observed=gotb, expected=want)
     return _r(False)
 
 
@@ -859,6 +882,17 @@ def replay_text_conversion(index, ob, seed, saved=None):
         if got_on != want_on or got_off != escape(text):
             return _r(True, input={"text": text}, observed={"convert_on": got_on, "convert_off": got_off}, expected={"convert_on": want_on, "convert_off": escape(text)},
                       function="TextContent._convert_special_chars")
+    # the convert flag is bound per call: the same text (short and long, with commands) rendered with the flag on, off, on, off ... in
+    # one process gives the on / off result every time, whatever was rendered before (no state may carry a conversion over)
+    for text in ("\\alpha", "dose \\pm SD", "Significance level \\alpha = 0.05 two-sided; estimates shown as mean \\pm SD for the full analysis set",
+                 "x" * 70 + " \\beta", "\\gamma " + "long text " * 30):
+        want_on, want_off = escape(reference_convert(text, table, strict=False)), escape(text)
+        for order in ((True, False, True, False), (False, True, False)):
+            for flag in order:
+                got = row.TextContent(text=text, convert=flag)._convert_special_chars()
+                if got != (want_on if flag else want_off):
+                    return _r(True, input={"text": text, "sequence_of_convert_flags": list(order), "failing_flag": flag}, observed=got,
+                              expected=want_on if flag else want_off, function="TextContent._convert_special_chars")
     res = bounded_reference(index, "quick", seed)
     for f in res.get("failures", []):
         if f["name"] != "comparison_sign_followed_by_extra_space":
